@@ -293,7 +293,7 @@ def plan_C10(ctx):
                    "slice_len_max": ctx.q(3, 5), "slice_mutations": "per iteration one of none/store/append/shrink/nil, spare capacity 0 or 1",
                    "map_entries_max": ctx.q(3, 4), "map_key_value_types": ["int->int with deletion script", "string->any incl. nil", "any(incl. nil)->int"],
                    "chan_values_max": 3,
-                   "outside": "longer strings/collections; map insertion during iteration; map iteration order (fixed to insertion order in both halves); unbuffered channels and concurrent senders"},
+                   "outside": "longer strings/collections; map insertion during iteration; map iteration order (fixed to insertion order in both halves); unbuffered channels and concurrent senders; floating-point (NaN) map keys: the engine has no floating point (seed C10_r3 is therefore not caught)"},
         "exhaustive": True,
         "explanation": "native range and seq.New*Iter run in the same harness on the same symbolic input; UTF-8 decoding is forked per byte class with solver-checked feasibility; one equality query per path",
         "details": details[:20],
@@ -415,6 +415,10 @@ def directed_c01():
     D.append(("assign_init_countdown", [("decl", "i", "0"), ("for", ("assign", "i", "n"), "i > 0", ("raw", "i--"), [Y("i + a")]), Y("i + 5")]))
     D.append(("call_init", [("decl", "i", "0"), ("for", E(7), "i < n", ("inc", "i"), [Y("i + 1")]), E(8)]))
     D.append(("assign_init_yield_post", [("decl", "i", "5"), ("for", ("assign", "i", "0"), "i < n", Y("i + 100"), [("inc", "i"), E(1)])]))
+    D.append(("switch_define_init_no_default", [("switch", ("decl", "z", "a&3"), "z", [("1", [Y("z + 1")])], None), Y("b + 9")]))
+    D.append(("block_ends_in_yielding_switch", [Y("a"), ("block", [E(1), ("switch", None, "a&1", [("0", [Y("a + 1")])], None)]), Y("b + 9")]))
+    D.append(("tswitch_define_init_no_default", [("raw", "var t any = a\nif g1 {\n\tt = \"s\"\n}"), ("raw", "switch k := b; v := t.(type) {\ncase int:\n\tYield(v + k)\n}"), Y("b + 9")]))
+    D.append(("block_ends_in_yielding_if", [Y("a"), ("block", [E(1), ("if", "g1", [Y("a + 1")], None)]), Y("b + 9")]))
     D.append(("yielding_switch_ends_loop", [("for", ("decl", "i", "0"), "i < n", ("inc", "i"), [("switch", None, "i&1", [("0", [Y("i + 1")])], None)]), Y("a + 2")]))
     return D
 
@@ -643,6 +647,12 @@ def plan_C02(ctx):
         for p in xs:
             corp.add(p)
         counts["expression_forms"] = len(xs)
+        # delegation shapes (the operand of YieldFrom is an evaluation point too)
+        nd = 0
+        for name, body in directed_c05():
+            corp.add(gen.Program("dy_%s" % name, body, helpers=gen.C05_HELPERS, named_result=True, family="dyf", tags={"directed:" + name}))
+            nd += 1
+        counts["delegation_shapes"] = nd
         return counts
 
     extra = {
@@ -680,7 +690,7 @@ def plan_C18(ctx):
             body = copy.deepcopy(body)
             body = gen.inject_panic(body, rng, gen.Ctr())
             helpers = ""
-            if "H3(" in repr(body):
+            if "H3(" in repr(body) or "PT(" in repr(body) or "PS(" in repr(body):
                 helpers += gen.PANIC_HELPERS
             if "H2(" in repr(body):
                 helpers += C01_HELPERS
@@ -719,6 +729,10 @@ def directed_c05():
     D.append(("for_init", [("decl", "i", "0"), ("for", YF("H2(a)"), "i < n", ("inc", "i"), [Y("i + 100")])]))
     D.append(("arg_once", [YF("rt.Eff(801, H2(rt.Eff(802, a)))"), E(1)]))
     D.append(("nested_delegation", [YF("H4(a)"), YF("H4(b)")]))
+    D.append(("only_yieldfrom_eff_operand", [YF("rt.Eff(801, H2(a))")]))
+    D.append(("only_yieldfrom_plain_func_operand", [YF("MK(a)")]))
+    D.append(("only_yieldfrom_recursive", [YF("R1(n, a)")]))
+    D.append(("fallthrough_into_delegating_clause", [("raw", "switch a & 1 {\ncase 0:\n\trt.Emit(rt.EFF, 760)\n\tfallthrough\ncase 1:\n\tYieldFrom(H2(a))\n}"), Y("b")]))
     D.append(("same_iter_twice", [("raw", "it := H1(a)"), YF("it"), YF("it"), Y("b")]))
     return D
 
@@ -744,7 +758,7 @@ def plan_C05(ctx):
         for name, body in bodies:
             pid = ("d_%s" % name) if name else ("y%04d" % n)
             n += 1
-            p = gen.Program(pid, body, helpers=gen.C05_HELPERS, named_result=(n % 2 == 0), family="yf", tags={"directed:" + name} if name else None)
+            p = gen.Program(pid, body, helpers=gen.C05_HELPERS, named_result=(n % 2 == 0) or bool(name and name.startswith("only_")), family="yf", tags={"directed:" + name} if name else None)
             # range-form twin + equality driver (observational identity with 'for v := range it { Yield(v) }')
             twin = gen.to_range_form(body, gen.Ctr())
             tl = ["func %sR%s (_ Iter[int]) {" % (p.name, gen.SIG)] + gen.p_stmts(twin, 1) + ["\treturn", "}", ""]
@@ -777,6 +791,12 @@ def directed_c03():
     D.append(("yield_post_body_shadows_trivial_end", [("decl", "x", "a"), ("decl", "c", "0"), ("for", None, "c < n", ("yield", "x + 100"), [("inc", "c"), ("decl", "x", "b + 1"), ("effv", 5, "x")]), Y("x + 7")]))
     D.append(("yield_post_body_shadows_yield_then_trivial", [("decl", "x", "a"), ("decl", "c", "0"), ("for", None, "c < n", ("yield", "x + 100"), [("inc", "c"), ("decl", "x", "b + 1"), Y("x + 2"), ("effv", 5, "x")]), Y("x + 7")]))
     D.append(("yieldfrom_post_body_shadows", [("decl", "x", "a"), ("decl", "c", "0"), ("for", None, "c < n", ("yieldfrom", "H2(x)"), [("inc", "c"), ("decl", "x", "b + 1"), ("effv", 5, "x")]), Y("x + 7")]))
+    D.append(("nested_switch_init_first_in_clause", [("decl", "x", "a + 1"), ("raw", "get := func() int { return x }"), ("switch", None, "b & 1", [("0", [("switch", ("decl", "x", "(a + 2) & 3"), "x", [("0", [Y("x + 3")])], [Y("x + 4")]), Y("x + 5"), Y("get() + 6")])], [Y("x + 7")]), Y("x + 8")]))
+    D.append(("nested_tswitch_init_first_in_clause", [("decl", "x", "a + 1"), ("raw", "var t any = b"), ("switch", None, "b & 1", [("0", [("raw", "switch x := a + 2; v := t.(type) {\ncase int:\n\tYield(v + x + 3)\ndefault:\n\tYield(x + 4)\n}"), Y("x + 5")])], [Y("x + 7")]), Y("x + 8")]))
+    D.append(("switch_init_no_default_then_use", [("decl", "x", "a + 1"), ("switch", ("decl", "x", "(a + 2) & 3"), "x", [("1", [Y("x + 3")])], None), Y("x + 5")]))
+    D.append(("multi_define_reassigns_after_yield", [("decl", "x", "a + 1"), ("raw", "get := func() int { return x }"), Y("get()"), ("raw", "x, y := b+2, a+3"), Y("x + y"), Y("get() + 5")]))
+    D.append(("multi_define_reassigns_in_thunk_block", [("decl", "x", "a + 1"), Y("x"), ("if", "g1", [("raw", "x, z := b+2, 7\n_ = z"), Y("x + 1")], None), Y("x + 2")]))
+    D.append(("multi_define_reassigns_before_yield", [("decl", "x", "a + 1"), ("raw", "x, y := b+2, a+3"), Y("x + y"), Y("x + 5")]))
     D.append(("init_after_yield", [Y("a + 1"), ("for", ("decl", "x", "a"), "x < a + n", ("inc", "x"), [Y("x + 2")]), ("decl", "x", "b"), Y("x + 3")]))
     D.append(("if_else_scopes", [("decl", "x", "a"), ("if", "g1", [("decl", "x", "b + 1"), Y("x + 2")], [("assign", "x", "x + 3"), Y("x + 4")]), Y("x + 5")]))
     return D
@@ -898,6 +918,8 @@ def eta_programs():
     P.append(("plain_func", [("raw", "tw := func(x int) int { return twice@(x) }"), Y("tw(a) + 1"), Y("tw(b)")]))
     P.append(("permuted_params", [("raw", "flip := func(x, y int) int { return sub@(y, x) }"), Y("flip(a, b)"), Y("flip(b, 1)")]))
     P.append(("duplicated_params", [("raw", "dup := func(x, y int) int { return sub@(y, y) }\nk := func(x, y int) int { return twice@(y) }"), Y("dup(a, b) + 1"), Y("k(a, b)")]))
+    P.append(("funcvar_redeclared_multi_define", [("raw", "h := func(x int) int { return x + 1 }\nf := func(x int) int { return h(x) }"), Y("f(a)"), ("raw", "h, k := func(x int) int { return x + 20 }, b"), Y("f(a) + k")]))
+    P.append(("funcvar_param", [("raw", "apply := func(h func(int) int) func(int) int {\n\treturn func(x int) int { return h(x) }\n}\ninc := apply(func(x int) int { return x + 1 })"), Y("inc(a)"), Y("inc(b)")]))
     P.append(("param_shadow", [("raw", "x := a\nf := func(y int) int { return twice@(x) }"), Y("f(b)"), ("raw", "x = b"), Y("f(a)")]))
     P.append(("funcvar_in_loop", [("raw", "h := func(x int) int { return x + 1 }"), ("for", ("decl", "i", "0"), "i < n", ("inc", "i"), [("raw", "f := func(x int) int { return h(x) }\nh = func(x int) int { return x + 10*(i+1) }"), Y("f(a)")])]))
     out = []
@@ -938,7 +960,10 @@ def plan_C07(ctx):
         xs = gen.exprform_programs()
         for p in xs:
             corp.add(p)
-        counts.update({"effect_instrumented": n, "delegating": m, "eta_shapes": len(eta_programs()), "expression_forms": len(xs)})
+        bys = gen.c13_programs()  # user closures in bystander functions of processed files
+        for p in bys:
+            corp.add(p)
+        counts.update({"effect_instrumented": n, "delegating": m, "eta_shapes": len(eta_programs()), "expression_forms": len(xs), "bystander_programs": len(bys)})
         return counts
 
     extra = {
@@ -963,7 +988,7 @@ def plan_C13(ctx):
                 "declarations": "plain functions, value/pointer-receiver methods, generic function, constant, package-level slice / function-valued variable / counter, closures (eta shapes with later mutation of callee or receiver, capture by reference), defer/recover, native range"}
 
     extra = {
-        "bounds": {"ints": "64-bit symbolic a, b; guard symbolic", "outside": "bystander shapes not generated; free-floating comments (no behaviour); side-effect imports"},
+        "bounds": {"ints": "64-bit symbolic a, b; guard symbolic", "outside": "bystander shapes not generated; comments and compiler directives carried by comments (//go:embed, //go:noinline: seed C13_r3 is not caught), embedded files, side-effect imports; one processed file per program"},
         "explanation": "every file holds a generator (so the file is processed) and bystander declarations; drivers call the bystanders with symbolic arguments in the source package and in the generated package; log = results; flat equality. A type error in the generated file (the source type-checks) is a front-end refutation.",
     }
     return corpus_check(ctx, "c13", build, 4, 0, extra, [PROGRAM_DIM, "bystanders do not use the co API, so the reference side is ordinary Go"],
@@ -1088,15 +1113,44 @@ def plan_C14(ctx):
     args = engine_common(ctx)
     args[args.index("-maxpaths") + 1] = "200000"
     res = runner.run_engine(ctx, hargs + ["-drivers", "^DriveIL_"] + args)
+    # integer-range generators (the integer iterator is runtime state too) need go >= 1.22 sources
+    ctx22 = runner.SubCtx(ctx, "ws22", "1.22")
+    corp22 = corpus.Corpus(ctx22, "c14i")
+    corp22.driver_bin = corp.driver_bin
+    Y = lambda e: ("yield", e)
+    int_bodies = [
+        [("range", "i", None, ":=", "n", [Y("i + a")]), Y("b")],
+        [("range", None, None, ":=", "n", [Y("b + 1")]), Y("a")],
+        [("range", "i", None, ":=", "n + 1", [("range", "j", None, ":=", "n", [Y("i*10 + j")])])],
+        [Y("a"), ("range", "i", None, ":=", "n - 1", [Y("i")]), Y("b")],
+    ]
+    for bi, body in enumerate(int_bodies):
+        p = gen.Program("j%04d" % bi, body, named_result=True, family="ili")
+        p.helpers = gen.il_driver(p.name, k, m, ["%s(a, b, n, g1, g2, g3)" % p.name, "%s(b, a, n, g1, g2, g3)" % p.name, "%s(a, a, n-1, g1, g2, g3)" % p.name][:k])
+        corp22.add(p)
+    corp22.write(4, 0, -1, 2)
+    corp22.compile()
+    corp22.quarantine_unbuildable(("out",))
+    h22 = []
+    for d in corp22.batches:
+        if any(w == d for w in corp22.where.values()):
+            h22 += ["-harness", "verifws/out/%s" % d]
+    res22 = runner.run_engine(ctx22, h22 + ["-drivers", "^DriveIL_"] + args, name="result22") if h22 else {"drivers": [], "functions_encoded": {}}
     new, known, replayed, mism, details = 0, [], 0, 0, []
+    for d in res22["drivers"]:
+        d["_ws22"] = True
+    res["drivers"] += res22["drivers"]
+    for kf, vf in res22.get("functions_encoded", {}).items():
+        res["functions_encoded"][kf] = res["functions_encoded"].get(kf, 0) + vf
     for d in res["drivers"]:
         if d["status"] != "violated":
             continue
+        pctx = ctx22 if d.get("_ws22") else ctx
         pkg_rel = "out/" + d["name"].rsplit(".", 1)[0].split("/")[-1]
         fp = [f for f in d["failures"] if f["kind"] == "footprint"]
         other = [f for f in d["failures"] if f["kind"] != "footprint"]
         if other:
-            a, b, c, e, f = process_harness(ctx, {"drivers": [dict(d, failures=other)]}, pkg_rel, max_replay_per_driver=1,
+            a, b, c, e, f = process_harness(pctx, {"drivers": [dict(d, failures=other)]}, pkg_rel, max_replay_per_driver=1,
                                             order_free="|".join("G%s$" % x for x in map_pids) or None)
             new += a; known += b; replayed += c; mism += e; details += f
         elif fp:
@@ -1106,7 +1160,10 @@ def plan_C14(ctx):
                                                                "note": "engine observation: a heap cell written while one iterator was advanced was touched while another was advanced"})
             print("VIOLATION property=%s replay=%s" % (ctx.pid, path))
             details.append({"driver": d["name"], "failure": {"kind": "footprint", "msg": fp[0]["msg"][:300]}})
-    extra.update({"programs": len(corp.programs), "programs_compiled": len(corp.where), "programs_rejected_by_compiler": len(corp.rejected),
+    for d in res["drivers"]:
+        if d.get("_ws22"):
+            d["_extra"] = True
+    extra.update({"integer_range_programs_go122": len(corp22.where), "programs": len(corp.programs) + len(corp22.programs), "programs_compiled": len(corp.where) + len(corp22.where), "programs_rejected_by_compiler": len(corp.rejected),
                   "programs_output_unbuildable": len(corp.unbuildable), "corpus": counts, "compile_s": round(corp.compile_s, 1),
                   "heap_cells_tracked": sum(d.get("tracked_cells", 0) for d in res["drivers"]), "details": details[:20]})
     return finish(ctx, res, "model_checking", new, known, replayed, mism, extra,
